@@ -116,6 +116,12 @@ static void run() {
       if (c == "record") { rl = std::make_shared<util::RecordLookup>(); for (int64_t i = 0; i < k; i++) rl->push_back(next()); }
       for (int64_t i = k - 1; i >= 0; i--) cs[(size_t)i] = pop();
       stack.push_back(std::make_shared<RecordArray>(noid, noparams, cs, rl, len)); }
+    else if (c == "union8_32") { int64_t n = nint(); Index8 t = rindex<int8_t>(n); Index32 i = rindex<int32_t>(n); int64_t k = nint(); ContentPtrVec cs((size_t)k);
+      for (int64_t j = k - 1; j >= 0; j--) cs[(size_t)j] = pop();
+      stack.push_back(std::make_shared<UnionArray8_32>(noid, noparams, t, i, cs)); }
+    else if (c == "union8_U32") { int64_t n = nint(); Index8 t = rindex<int8_t>(n); IndexU32 i = rindex<uint32_t>(n); int64_t k = nint(); ContentPtrVec cs((size_t)k);
+      for (int64_t j = k - 1; j >= 0; j--) cs[(size_t)j] = pop();
+      stack.push_back(std::make_shared<UnionArray8_U32>(noid, noparams, t, i, cs)); }
     else if (c == "union8_64") { int64_t n = nint(); Index8 t = rindex<int8_t>(n); Index64 i = rindex<int64_t>(n); int64_t k = nint(); ContentPtrVec cs((size_t)k);
       for (int64_t j = k - 1; j >= 0; j--) cs[(size_t)j] = pop();
       stack.push_back(std::make_shared<UnionArray8_64>(noid, noparams, t, i, cs)); }
